@@ -1,10 +1,12 @@
 // C19 implementation driver: zix_file_lock / zix_file_unlock from /repo/src/posix/filesystem_posix.c
 //
 // Linked with -Wl,--wrap=flock.
-//   F <L|U> <B|T> <rc> <errno>     scripted: flock is replaced, (fd, flags) recorded, result injected
-//   P <kinds> <sched>              lock-step run: one worker per handle (p = forked process, t = thread of this
-//                                  process), each with its own fopen of the lock file, driven over pipes so that the
-//                                  interleaving is exactly the given one.  sched tokens <i><c>:
+//   F <L|U> <B|T> <rc> <errno> <m>  scripted: flock is replaced, (fd, flags) recorded, result injected; the FILE is
+//                                  opened with mode m (r, R = r+, w, a, A = a+); any fcntl call is recorded too
+//   P <kinds> <sched>              lock-step run: one worker per handle, two characters each: p = forked process /
+//                                  t = thread of this process, then the fopen mode (r R w a A); every worker opens
+//                                  the lock file itself and is driven over pipes so that the interleaving is exactly
+//                                  the given one.  sched tokens <i><c>:
 //                                    t/b lock TRY/BLOCK, u/v unlock TRY/BLOCK, c fclose, o fopen,
 //                                    r collect a sleeping BLOCK call (or confirm it still sleeps), s signal
 #ifndef _GNU_SOURCE
@@ -45,6 +47,50 @@ static const char* status_name(int st)
 }
 
 int __real_flock(int, int);
+int __real_fcntl(int, int, ...);
+int __real_fcntl64(int, int, ...);
+#include <stdarg.h>
+
+static __thread int in_zix_call; // set around zix_file_lock / zix_file_unlock
+static __thread int unexpected;  // system calls the model does not prescribe, made inside them
+static __thread int unexpected_cmd = -1;
+
+int __wrap_fcntl(int fd, int cmd, ...)
+{
+  va_list ap;
+  va_start(ap, cmd);
+  void* arg = va_arg(ap, void*);
+  va_end(ap);
+  if (in_zix_call) {
+    ++unexpected;
+    unexpected_cmd = cmd;
+  }
+  return __real_fcntl(fd, cmd, arg);
+}
+
+int __wrap_fcntl64(int fd, int cmd, ...)
+{
+  va_list ap;
+  va_start(ap, cmd);
+  void* arg = va_arg(ap, void*);
+  va_end(ap);
+  if (in_zix_call) {
+    ++unexpected;
+    unexpected_cmd = cmd;
+  }
+  return __real_fcntl64(fd, cmd, arg);
+}
+
+static const char* open_mode(char m)
+{
+  switch (m) {
+  case 'r': return "r";
+  case 'w': return "w";
+  case 'a': return "a";
+  case 'A': return "a+";
+  default: return "r+";
+  }
+}
 
 static int          scripted;
 static int          inj_rc, inj_errno;
@@ -81,23 +127,30 @@ static char lock_path[64];
 
 static void case_scripted(char** tok)
 {
-  FILE* f = fopen(lock_path, "r+");
+  FILE* f = fopen(lock_path, open_mode(tok[5][0]));
   if (!f) {
     puts("nofile");
     return;
   }
   const ZixFileLockMode mode = (tok[2][0] == 'B') ? ZIX_FILE_LOCK_BLOCK : ZIX_FILE_LOCK_TRY;
+  unexpected = 0;
   inj_rc     = atoi(tok[3]);
   inj_errno  = atoi(tok[4]);
   seen_calls = 0;
   seen_fd    = -1;
   scripted   = 1;
   errno      = 0;
+  in_zix_call = 1;
   const ZixStatus st = (tok[1][0] == 'L') ? zix_file_lock(f, mode) : zix_file_unlock(f, mode);
+  in_zix_call = 0;
   scripted   = 0;
   printf("st=%s || calls=%d flock(%s,", status_name((int)st), seen_calls, seen_fd == fileno(f) ? "fd" : "fd?");
   print_flags(seen_flags);
-  puts(")");
+  fputs(")", stdout);
+  if (unexpected) {
+    printf(" unexpected=%d fcntl(%d)", unexpected, unexpected_cmd);
+  }
+  fputc('\n', stdout);
   fclose(f);
 }
 
@@ -113,6 +166,7 @@ static Shared* shared;
 
 typedef struct {
   char      kind; // 'p' or 't'
+  char      mode; // fopen mode letter
   int       idx;
   int       cmd[2];   // parent writes cmd[1], worker reads cmd[0]
   int       reply[2]; // worker writes reply[1], parent reads reply[0]
@@ -160,7 +214,7 @@ static void occ_enter(void)
 static void worker_loop(Worker* w)
 {
   my_idx        = w->idx;
-  FILE* f       = fopen(lock_path, "r+");
+  FILE* f       = fopen(lock_path, open_mode(w->mode));
   int   holding = 0;
   for (;;) {
     char    c = 0;
@@ -173,6 +227,8 @@ static void worker_loop(Worker* w)
     }
     unsigned char out[3] = {0, 0, 0xFF};
     last_flags           = -1;
+    unexpected           = 0;
+    in_zix_call          = (c == 't' || c == 'b' || c == 'u' || c == 'v');
     const double t0      = mono_now();
     ZixStatus    st      = ZIX_STATUS_SUCCESS;
     switch (c) {
@@ -204,14 +260,15 @@ static void worker_loop(Worker* w)
       break;
     case 'o':
       if (!f) {
-        f = fopen(lock_path, "r+");
+        f = fopen(lock_path, open_mode(w->mode));
       }
       st = f ? ZIX_STATUS_SUCCESS : ZIX_STATUS_ERROR;
       break;
     default: st = ZIX_STATUS_BAD_ARG;
     }
+    in_zix_call = 0;
     out[0] = (unsigned char)st;
-    out[1] = (c == 't' && mono_now() - t0 > 2.0) ? 1 : 0;
+    out[1] = (unsigned char)(((c == 't' && mono_now() - t0 > 2.0) ? 1 : 0) | (unexpected ? 2 : 0));
     out[2] = (unsigned char)(last_flags < 0 ? 0xFF : last_flags);
     while (write(w->reply[1], out, 3) < 0 && errno == EINTR) {
     }
@@ -232,11 +289,12 @@ static void* thread_main(void* arg)
   return NULL;
 }
 
-// is the worker asleep inside flock(2)?
+// is the worker asleep inside flock(2)?  Both must hold: its current system call is flock (a task that is merely
+// pre-empted inside a non-blocking flock shows that too) and the scheduler state is S (sleeping).
 static int in_flock(const Worker* w)
 {
   char path[64];
-  char buf[128];
+  char buf[160];
   if (w->kind == 'p') {
     snprintf(path, sizeof(path), "/proc/%d/syscall", (int)w->pid);
   } else {
@@ -247,11 +305,10 @@ static int in_flock(const Worker* w)
     size_t n = fread(buf, 1, sizeof(buf) - 1, f);
     fclose(f);
     buf[n] = 0;
-    if (n > 0) {
-      return atoi(buf) == SYS_flock && buf[0] != 'r' && buf[0] != '-';
+    if (n > 0 && !(buf[0] >= '0' && buf[0] <= '9' && atoi(buf) == SYS_flock)) {
+      return 0; // readable and not in flock ("running", "-1 ...", another call)
     }
   }
-  // fall back to the scheduler state
   if (w->kind == 'p') {
     snprintf(path, sizeof(path), "/proc/%d/stat", (int)w->pid);
   } else {
@@ -292,7 +349,7 @@ static int collect(Worker* w, unsigned char* out, int done_only)
     }
     if (!done_only) {
       if (in_flock(w)) {
-        if (++seen >= 3) {
+        if (++seen >= 4) {
           return 0;
         }
       } else {
@@ -326,15 +383,17 @@ static void signal_worker(Worker* w)
 static void case_lockstep(char** tok)
 {
   Worker      w[MAXW];
-  const int   n = (int)strlen(tok[1]) > MAXW ? MAXW : (int)strlen(tok[1]);
+  const int   n = (int)strlen(tok[1]) / 2 > MAXW ? MAXW : (int)strlen(tok[1]) / 2;
   char        flags[1024];
-  int         slow = 0, hung = 0;
+  int         slow = 0, hung = 0, unexp = 0;
+  alarm(60); // nothing in a case may take this long: the driver dies and the case is reported as a crash
   flags[0] = 0;
   memset(shared, 0, sizeof(*shared));
   fflush(stdout);
   for (int i = 0; i < n; ++i) {
     memset(&w[i], 0, sizeof(Worker));
-    w[i].kind = tok[1][i];
+    w[i].kind = tok[1][2 * i];
+    w[i].mode = tok[1][2 * i + 1];
     w[i].idx  = i;
     if (pipe(w[i].cmd) || pipe(w[i].reply)) {
       puts("nopipe");
@@ -392,6 +451,7 @@ static void case_lockstep(char** tok)
       if (w[i].busy) {
         if (collect(&w[i], out, 1) == 1) {
           printf("%d:s=%s", i, status_name(out[0]));
+          unexp |= (out[1] & 2) >> 1;
           w[i].busy = 0;
           if (out[2] != 0xFF) {
             snprintf(flags + strlen(flags), sizeof(flags) - strlen(flags), "%s%d", flags[0] ? "," : "", out[2]);
@@ -422,7 +482,8 @@ static void case_lockstep(char** tok)
     const int r = collect(&w[i], out, 0);
     if (r == 1) {
       printf("%d:%c=%s", i, op, status_name(out[0]));
-      slow |= out[1];
+      slow |= out[1] & 1;
+      unexp |= (out[1] & 2) >> 1;
       w[i].busy = 0;
       if (out[2] != 0xFF) {
         snprintf(flags + strlen(flags), sizeof(flags) - strlen(flags), "%s%d", flags[0] ? "," : "", out[2]);
@@ -438,15 +499,14 @@ static void case_lockstep(char** tok)
   int   lock_free = -1;
   FILE* probe     = fopen(lock_path, "r+");
   if (probe) {
-    const ZixStatus st = zix_file_lock(probe, ZIX_FILE_LOCK_TRY);
-    lock_free          = (st == ZIX_STATUS_SUCCESS);
+    lock_free = !__real_flock(fileno(probe), LOCK_EX | LOCK_NB);
     if (lock_free) {
-      zix_file_unlock(probe, ZIX_FILE_LOCK_TRY);
+      __real_flock(fileno(probe), LOCK_UN);
     }
     fclose(probe);
   }
-  printf(" maxocc=%d viol=%d slow=%d free=%d || flags=%s\n", atomic_load(&shared->max), atomic_load(&shared->viol),
-         slow, lock_free, flags[0] ? flags : "-");
+  printf(" maxocc=%d viol=%d slow=%d free=%d || flags=%s unexpected=%d\n", atomic_load(&shared->max),
+         atomic_load(&shared->viol), slow, lock_free, flags[0] ? flags : "-", unexp);
   // stop everybody
   for (int i = 0; i < n; ++i) {
     if (w[i].kind == 'p') {
@@ -474,6 +534,7 @@ static void case_lockstep(char** tok)
     close(w[i].reply[1]);
   }
   free(sched);
+  alarm(0);
 }
 
 static void cleanup(void)
@@ -510,7 +571,7 @@ int main(void)
   signal(SIGPIPE, SIG_IGN);
   while (vgetline(&line, &cap)) {
     const int n = vsplit(line, tok, 8);
-    if (n == 5 && !strcmp(tok[0], "F")) {
+    if (n == 6 && !strcmp(tok[0], "F")) {
       case_scripted(tok);
     } else if (n == 3 && !strcmp(tok[0], "P")) {
       case_lockstep(tok);
